@@ -65,14 +65,17 @@ func readFrameOfType(fType byte, reader *bufio.Reader, isTCP bool) (frame, error
 		if err != nil {
 			return nil, err
 		}
-		length := binary.BigEndian.Uint16(peeked) + 2 // +2 to include the length bytes
+		length := int(binary.BigEndian.Uint16(peeked)) + 2 // +2 to include the length bytes
 
 		// actual data
 		data = make([]byte, length)
 		var n int
-		for read := 0; read < int(length) && err == nil; {
+		for read := 0; read < length && err == nil; {
 			n, err = reader.Read(data[read:])
 			read += n
+		}
+		if err == nil && length < 5 {
+			err = fmt.Errorf("Data frame too short (%d bytes) to hold a data type", length-2)
 		}
 	default:
 		return nil, fmt.Errorf("Unexpected frame type %c", fType)
